@@ -39,6 +39,7 @@ async def _scenario(sc):
 
     trace = []
     log = []
+    disabled_busy = []     # expression ports disabled while an evaluation / write of theirs was pending
 
     class HPort(core_ports.Port):
         TYPE = core_ports.TYPE_NUMBER
@@ -157,7 +158,12 @@ async def _scenario(sc):
                 await ports[cmd[2]].enable()
                 trace.append(['Enable', cmd[2]])
             elif kind == 'disable':
-                await ports[cmd[2]].disable()
+                pp = ports[cmd[2]]
+                busy = bool(pp.get_expression()) and (pp.has_pending_eval() or pp.is_writing() or pp._write_value_queue.qsize() > 0
+                                                     or pp.store != pp.get_last_read_value())
+                if busy:
+                    disabled_busy.append(cmd[2])
+                await pp.disable()
                 trace.append(['Disable', cmd[2]])
             log.append([vloop.vtime_ms()] + cmd[1:])
         # let the hub settle: quiescent = nothing pending for 10 consecutive ticks
@@ -207,7 +213,7 @@ async def _scenario(sc):
                 except Exception:
                     pass
     res = {
-        'tw_mismatch': tw_mismatch,
+        'tw_mismatch': tw_mismatch, 'disabled_busy': disabled_busy,
         'trace': final_trace, 'final': final_state, 'exprs': exprs,
         'enabled': [p.is_enabled() for p in ports],
         'twrite': [str(p._transform_write) if p._transform_write else None for p in ports],
